@@ -319,6 +319,9 @@ def build_conf(spec):
         if spec['kind'] == 'dims':
             ly['dimensions'] = spec['dimensions']
         conf['layers'].append(ly)
+        if spec['src'][gn] == 'wms':
+            # the same upstream as a cascaded layer (no cache): the pixel limit is the only guard of such a layer
+            conf['layers'].append({'name': 'd_' + gn, 'title': 'direct ' + gn, 'sources': ['s_' + gn]})
     conf['services'] = {'tms': dict(spec['tms']), 'kml': dict(spec['kml']), 'wmts': dict(spec['wmts']),
                         'wms': {'srs': srs_all, 'max_output_pixels': spec['max_output_pixels'],
                                 'image_formats': ['image/png', 'image/jpeg'], 'md': {'title': 'c16'}}}
@@ -884,8 +887,9 @@ def make_plan(run, ctx, rng):
         tw, th = g['ts']
         W0 = '/service?SERVICE=WMS&VERSION=1.1.1&REQUEST=GetMap&LAYERS=%s&STYLES=&SRS=%s' % (lname, g['srs'])
 
-        def getmap(bbox, size, fmt, extra=''):
-            return '%s&BBOX=%s&WIDTH=%d&HEIGHT=%d&FORMAT=image/%s%s' % (W0, ','.join(repr(float(v)) for v in bbox), size[0], size[1], fmt, extra)
+        def getmap(bbox, size, fmt, extra='', layers=None):
+            w0 = W0 if layers is None else W0.replace('LAYERS=%s&' % lname, 'LAYERS=%s&' % layers)
+            return '%s&BBOX=%s&WIDTH=%d&HEIGHT=%d&FORMAT=image/%s%s' % (w0, ','.join(repr(float(v)) for v in bbox), size[0], size[1], fmt, extra)
 
         def rect_any(x, y, L):
             return tile_rect(lat, x, y, L)
@@ -1005,6 +1009,20 @@ def make_plan(run, ctx, rng):
             if exp == 'below' and (size[0] > 20 * size[1] or size[1] > 20 * size[0]):
                 continue
             add('wms', gn, getmap(inner, size, rng.choice(['png', 'jpeg'])), exp, 'max_output_pixels', ac, size=list(size))
+            if g['src'] == 'wms' and (exp == 'above' or ac == 'small'):
+                # the limit must not depend on the kind of layer or on vendor parameters: cascaded layer, mixed lists,
+                # WMS-C flag in several spellings, unknown vendor parameters
+                for _ in range(2):
+                    lay = rng.choice(['d_' + gn, 'd_' + gn, 'd_%s,l_%s' % (gn, gn), 'l_%s,d_%s' % (gn, gn), lname])
+                    vend = rng.choice(['', '&TILED=true', '&tiled=TRUE', '&Tiled=True', '&TILED=false', '&TILED=1', '&EXCEPTIONS=application/vnd.ogc.se_inimage',
+                                       '&TRANSPARENT=TRUE', '&DPI=300&MAP_RESOLUTION=300', '&TILED=true&EXCEPTIONS=application/vnd.ogc.se_blank'])
+                    if lay == lname and vend == '':
+                        continue
+                    if exp != 'above' and 'TILED=true' in vend.upper().replace('TRUE', 'true') and 'l_' in lay:
+                        continue    # a cached layer answers a TILED request of another size with an error: not this clause
+                    add('wms', gn, getmap(inner, size, rng.choice(['png', 'jpeg']), vend, layers=lay), exp, 'max_output_pixels',
+                        ac + ':' + ('direct' if lay.startswith('d_') and ',' not in lay else ('mixed' if ',' in lay else 'cached')) +
+                        (':vendor' if vend else ''), size=list(size))
         # ---- bboxes entirely / mostly outside the grid ------------------------------------------------------------------
         bx = g['bbox']
         gw, gh = bx[2] - bx[0], bx[3] - bx[1]
@@ -1077,7 +1095,7 @@ def execute(run, ctx, d, fail):
         m['clause'] = clause
         fail(m, 'case %s: %s request %s (expectation %s: %s/%s, grid %s %s sizes %s) -> %s | %s' % (
             ctx.case_i, svc, d['url'], d['exp'], d['what'], d['addr'], d['g'], g['gclass'],
-            g['sizes'][:6], ('%d %s %r' % (r.code, r.content_type, r.body[:160])) if r is not None else 'exception', detail))
+            g['sizes'][:6], ('%d %s %r' % (r.code, r.content_type, r.body[:700])) if r is not None else 'exception', detail))
 
     if exc is not None:
         bad('exception_escaped_wsgi_app', '%r\n%s' % (exc, tb))
@@ -1191,6 +1209,14 @@ def execute(run, ctx, d, fail):
     run.judge(cls)
     if exp == 'below':
         run.hit('limit_requests_at_or_below')
+        if (r.code != 200 or not is_img) and d.get('rect') and b'max_tile_limit' in r.body and not (
+                d['rect'][0] >= g['bbox'][0] - 1e-9 and d['rect'][1] >= g['bbox'][1] - 1e-9 and
+                d['rect'][2] <= g['bbox'][2] + 1e-9 and d['rect'][3] <= g['bbox'][3] + 1e-9):
+            # the tile rectangle overhangs the grid bbox (border tiles): MapProxy clips the request to the extent first,
+            # a strip of one or two pixels is left whose resolution selects another level with more tiles. The statement
+            # binds requests ABOVE the limit; how many tiles a clipped request needs is not ours to say
+            run.dc('below_tile_limit_request_overhanging_the_grid_refused')
+            return
         if r.code != 200 or not is_img:
             bad('request_within_limits_refused', 'expected a normal image (%s, %s)' % (d['what'], d['addr']))
             return
